@@ -377,7 +377,16 @@ fn main() {
                 let o: AMsg = rng.pick(&amsgs).clone();
                 let any = rng.below(256) as u32;
                 let vmm = if o.ext { *rng.pick(&[0x41u32, 0x40, 0x26, 0x16, 0x06, 0x01, m.vmm, any]) } else { 0 };
-                m = AMsg { ecu: o.ecu, ext: o.ext, apid: o.apid, ctid: o.ctid, vmm, ..m };
+                if o.ext && m.ext && rng.chance(1, 2) {
+                    // ... or shares only some of the id fields (same apid/ctid on another ecu, same ecu/ctid with another apid, ...)
+                    let keep = rng.range(1, 6);
+                    m = AMsg { ecu: if keep & 1 != 0 { o.ecu } else { m.ecu }, apid: if keep & 2 != 0 { o.apid } else { m.apid },
+                               ctid: if keep & 4 != 0 { o.ctid } else { m.ctid }, vmm: o.vmm, text: o.text, lc: o.lc, ..m };
+                } else if !o.ext && !m.ext && rng.chance(1, 2) {
+                    m = AMsg { text: o.text, lc: o.lc, ..m }; // no extended header, another ecu, everything else equal
+                } else {
+                    m = AMsg { ecu: o.ecu, ext: o.ext, apid: o.apid, ctid: o.ctid, vmm, ..m };
+                }
             }
             amsgs.push(m);
         }
